@@ -29,9 +29,6 @@ Qed.
 Lemma py_in_keys_str : forall ks n, py_in (PStr n) (keys_dict ks) = Ok (str_mem n ks).
 Proof. intros. unfold keys_dict. simpl. rewrite dmem_keys. reflexivity. Qed.
 
-Lemma py_in_keys_nonstr : forall ks v, is_str v = false ->
-  py_in v (keys_dict ks) = Ok false \/ py_in v (keys_dict ks) = Err EType.
-Proof. intros ks v H. destruct v; simpl in *; try discriminate; auto. Qed.
 
 (* ---------- find_row ---------- *)
 Section Rows.
@@ -74,7 +71,8 @@ Section Rows.
     check_algorithm (pv_of_allowed a) rec keys (PStr n) =
     if str_mem n keys && list_contains (effective a rec) (PStr n) then Ok tt else unsupported.
   Proof.
-    intros a rec keys n. unfold check_algorithm. rewrite py_in_keys_str. simpl bind.
+    intros a rec keys n. unfold check_algorithm. simpl is_str. simpl negb. cbv iota.
+    rewrite py_in_keys_str. simpl bind.
     destruct (str_mem n keys); simpl; [|reflexivity].
     destruct a as [[|x l]|]; simpl;
       match goal with |- (if ?b then _ else _) = _ => destruct b; reflexivity end.
@@ -124,13 +122,11 @@ Section Rows.
     exists s. split; [reflexivity | exact E].
   Qed.
 
-  (* names that are not strings never pass; hashable ones get the unsupported-algorithm
-     error, unhashable ones (list, dict) a TypeError from `name not in dict` *)
+  (* names that are not strings never pass: the unsupported-algorithm error *)
   Lemma get_row_nonstr : forall tbl allowed rec name, is_str name = false ->
-    get_row f tbl allowed rec name = unsupported \/ get_row f tbl allowed rec name = Err EType.
+    get_row f tbl allowed rec name = unsupported.
   Proof.
-    intros tbl allowed rec name H. unfold get_row, check_algorithm.
-    destruct (py_in_keys_nonstr (row_names f tbl) name H) as [E|E]; rewrite E; simpl; auto.
+    intros tbl allowed rec name H. unfold get_row, check_algorithm. rewrite H. reflexivity.
   Qed.
 
   (* an empty list and None select the same branch *)
@@ -632,10 +628,10 @@ Proof.
 Qed.
 
 Lemma gate_nonstr_four : forall w allowed name, is_str name = false ->
-  (jws_get_alg w allowed name = Err (EJose UnsupportedAlgorithmError) \/ jws_get_alg w allowed name = Err EType) /\
-  (jwe_get_alg w allowed name = Err (EJose UnsupportedAlgorithmError) \/ jwe_get_alg w allowed name = Err EType) /\
-  (jwe_get_enc w allowed name = Err (EJose UnsupportedAlgorithmError) \/ jwe_get_enc w allowed name = Err EType) /\
-  (jwe_get_zip w allowed name = Err (EJose UnsupportedAlgorithmError) \/ jwe_get_zip w allowed name = Err EType).
+  jws_get_alg w allowed name = Err (EJose UnsupportedAlgorithmError) /\
+  jwe_get_alg w allowed name = Err (EJose UnsupportedAlgorithmError) /\
+  jwe_get_enc w allowed name = Err (EJose UnsupportedAlgorithmError) /\
+  jwe_get_zip w allowed name = Err (EJose UnsupportedAlgorithmError).
 Proof. intros. repeat split; apply get_row_nonstr; assumption. Qed.
 
 Lemma gate_supported_four : forall w allowed name,
@@ -709,7 +705,7 @@ Lemma instances :
   (exists m, jws_get_alg w0 (PList [pname "none"; pname "XX"]) (pname "none") = Ok m /\ is_none_row m = true) /\
   jws_get_alg w0 (PList [pname "HS384"]) (pname "HS256") = Err (EJose UnsupportedAlgorithmError) /\
   jws_get_alg w0 (PList [pname "XX"]) (pname "XX") = Err (EJose UnsupportedAlgorithmError) /\
-  jws_get_alg w0 PNone (PList [pname "HS256"]) = Err EType /\
+  jws_get_alg w0 PNone (PList [pname "HS256"]) = Err (EJose UnsupportedAlgorithmError) /\
   jws_get_alg w0 PNone (PInt 1) = Err (EJose UnsupportedAlgorithmError) /\
   (exists t, jwe_entry w0 (PList [pname "A128GCMKW"; pname "A128GCM"; pname "DEF"]) (Some PNone)
                (pname "A128GCM") [pname "A128GCMKW"] (Some (pname "DEF")) = Ok t) /\
